@@ -22,15 +22,25 @@ pub struct MemFile {
     /// every write call accepts at most this many bytes (like a tokio file: 2 MiB; a socket: whatever fits): the rest
     /// has to be offered again by the caller
     pub short: Option<usize>,
+    /// the vector holds the file from this offset on; everything below is virtual (reads give zeros) and every
+    /// access there is recorded: used to place a small scenario beyond 2^32 without materialising what lies before it
+    pub base: u64,
+    pub low_touch: Vec<u64>,
     seek_result: u64,
 }
 
 impl MemFile {
     pub fn new(data: Vec<u8>, fault: Option<(u64, usize)>) -> Self {
-        Self { data, pos: 0, trace: vec![], nwrites: 0, fault, failing: false, short: None, seek_result: 0 }
+        Self { data, pos: 0, trace: vec![], nwrites: 0, fault, failing: false, short: None, base: 0, low_touch: vec![], seek_result: 0 }
     }
     fn store(&mut self, buf: &[u8]) {
-        let off = self.pos as usize;
+        if self.pos < self.base {
+            self.low_touch.push(self.pos);
+            self.trace.push(Tev::Write(self.pos, buf.to_vec()));
+            self.pos += buf.len() as u64;
+            return;
+        }
+        let off = (self.pos - self.base) as usize;
         if self.data.len() < off {
             self.data.resize(off, 0);
         }
@@ -45,7 +55,7 @@ impl MemFile {
             _ => false,
         };
         if !merged { self.trace.push(Tev::Write(self.pos, buf.to_vec())); }
-        self.pos = end as u64;
+        self.pos = self.base + end as u64;
     }
     pub fn trace_str(&self) -> String {
         if self.trace.is_empty() {
@@ -66,7 +76,15 @@ impl MemFile {
 impl AsyncRead for MemFile {
     fn poll_read(mut self: Pin<&mut Self>, _cx: &mut Context<'_>, buf: &mut ReadBuf<'_>) -> Poll<io::Result<()>> {
         let me = &mut *self;
-        let off = (me.pos as usize).min(me.data.len());
+        if me.pos < me.base {
+            me.low_touch.push(me.pos);
+            let k = buf.remaining().min((me.base - me.pos).min(1 << 20) as usize);
+            buf.put_slice(&vec![0u8; k]);
+            me.pos += k as u64;
+            me.trace.push(Tev::Read(k));
+            return Poll::Ready(Ok(()));
+        }
+        let off = ((me.pos - me.base) as usize).min(me.data.len());
         let k = buf.remaining().min(me.data.len() - off);
         if k > 0 {
             buf.put_slice(&me.data[off..off + k]);
@@ -126,7 +144,7 @@ impl AsyncSeek for MemFile {
         let me = &mut *self;
         let np = match position {
             SeekFrom::Start(o) => o as i64,
-            SeekFrom::End(d) => me.data.len() as i64 + d,
+            SeekFrom::End(d) => me.base as i64 + me.data.len() as i64 + d,
             SeekFrom::Current(d) => me.pos as i64 + d,
         };
         if np < 0 {
